@@ -19,12 +19,13 @@ import (
 
 	gerrors "github.com/tochemey/goakt/v4/errors"
 	"github.com/tochemey/goakt/v4/reentrancy"
+	"github.com/tochemey/goakt/v4/supervisor"
 	"github.com/tochemey/goakt/v4/test/data/testpb"
 )
 
 type c16GrainOut struct {
-	Grains, Messages, Requests, Rejected, Replies, Timeouts, Cancels, Continuations, Panics int64
-	Violations                                                                      []string
+	Grains, Messages, Requests, Rejected, Replies, Timeouts, Cancels, Continuations, Panics, ReceivePanics int64
+	Violations                                                                                             []string
 }
 
 type c16GReq struct {
@@ -170,6 +171,11 @@ func (g *c16Grain) OnReceive(gctx *GrainContext) {
 			_ = call.Cancel()
 		}
 	}
+	if g.rng.intn(10) == 0 {
+		// OnReceive panics AFTER it issued its requests: contained by the turn, the requests stay in flight
+		atomic.AddInt64(&g.stats.ReceivePanics, 1)
+		panic("c16: OnReceive exploded after issuing requests")
+	}
 }
 
 func TestVerifC16Grain(t *testing.T) {
@@ -231,8 +237,10 @@ func TestVerifC16Grain(t *testing.T) {
 				r := newVerifRNG(seed*101 + uint64(i*16+s))
 				for n := s; n < nMsg; n += senders {
 					if err := sys.TellGrain(ctx, ids[i], &testpb.TestCount{Value: int32(n)}); err != nil {
-						viol.add("%s: TellGrain(%d) failed: %v", grains[i].name, n, err)
-						return
+						if _, isPanic := errors.AsType[*gerrors.PanicError](err); !isPanic { // a panicking OnReceive reports itself to the sender
+							viol.add("%s: TellGrain(%d) failed: %v", grains[i].name, n, err)
+							return
+						}
 					}
 					atomic.AddInt64(&out.Messages, 1)
 					if r.intn(5) == 0 {
@@ -389,4 +397,117 @@ func TestVerifC16GrainPanic(t *testing.T) {
 		out.Violations = append(out.Violations, fmt.Sprintf("held messages [2 3] handled as %v after the blocking request completed", out.Handled))
 	}
 	w.put(out)
+}
+
+// TestVerifC16RestartOnPanic: Receive issues a request (continuation registered), then panics; the
+// supervisor restarts the actor, i.e. cancelInFlightRequests runs on a goroutine that is not the
+// requester's turn. The request must end up completed, its continuation must never run off the
+// requester's turn (and at most once), the bookkeeping must be clean after the restart and the
+// restarted actor must handle later messages in order. Both modes.
+type c16RestartOut struct {
+	Mode               string
+	Completed          bool
+	Calls, OffTurn     int64
+	InFlight, Blocking int64
+	TableLen, Restarts int
+	Handled            []int32
+	Violations         []string
+}
+
+func TestVerifC16RestartOnPanic(t *testing.T) {
+	w := newVerifWriter(t, "c16_restart_out.jsonl")
+	defer w.close()
+	sys, ctx := c16System(t, "c16-restart")
+	silent := c16Spawn(t, sys, ctx, "rs-silent", func(*ReceiveContext) {})
+	for mi, mode := range []reentrancy.Mode{reentrancy.StashNonReentrant, reentrancy.AllowAll} {
+		out := c16RestartOut{Mode: fmt.Sprint(mode)}
+		var mu sync.Mutex
+		var handled []int32
+		var state atomic.Pointer[requestState]
+		var calls, offTurn atomic.Int64
+		var inReceive atomic.Uint64 // goroutine currently inside Receive, 0 when none
+		var self atomic.Pointer[PID]
+		requester := c16Spawn(t, sys, ctx, fmt.Sprintf("rs-requester-%d", mi), func(rc *ReceiveContext) {
+			m, ok := rc.Message().(*testpb.TestCount)
+			if !ok {
+				return
+			}
+			inReceive.Store(c16Gid())
+			defer inReceive.Store(0)
+			if m.GetValue() == 1 {
+				call := rc.Request(silent, &testpb.TestCount{Value: 1}, WithRequestTimeout(time.Hour))
+				if call != nil {
+					state.Store(call.(*requestHandle).state)
+					call.Then(func(any, error) {
+						calls.Add(1)
+						p := self.Load()
+						g := inReceive.Load()
+						if (g != 0 && g != c16Gid()) || p == nil || p.schedState.Load() != dispatchProcessing {
+							offTurn.Add(1)
+						}
+					})
+				}
+				panic("c16: Receive exploded after issuing a request")
+			}
+			mu.Lock()
+			handled = append(handled, m.GetValue())
+			mu.Unlock()
+		}, WithReentrancy(reentrancy.New(reentrancy.WithMode(mode), reentrancy.WithMaxInFlight(1))),
+			WithSupervisor(supervisor.NewSupervisor(supervisor.WithAnyErrorDirective(supervisor.RestartDirective))))
+		self.Store(requester)
+		if err := Tell(ctx, requester, &testpb.TestCount{Value: 1}); err != nil {
+			t.Fatalf("tell: %v", err)
+		}
+		restarted := c16WaitFor(t, "restart after the panic", func() bool { return requester.RestartCount() >= 1 && requester.IsRunning() })
+		out.Restarts = requester.RestartCount()
+		if restarted {
+			for _, n := range []int32{2, 3} {
+				if err := Tell(ctx, requester, &testpb.TestCount{Value: n}); err != nil {
+					out.Violations = append(out.Violations, fmt.Sprintf("Tell(%d) to the restarted actor failed: %v", n, err))
+				}
+			}
+			deadline := time.Now().Add(10 * time.Second)
+			for time.Now().Before(deadline) {
+				mu.Lock()
+				n := len(handled)
+				mu.Unlock()
+				if n == 2 {
+					break
+				}
+				time.Sleep(time.Millisecond)
+			}
+		}
+		time.Sleep(5 * time.Millisecond)
+		re := requester.reentrancy.Load()
+		out.InFlight, out.Blocking, out.TableLen = re.inFlightCount.Load(), re.blockingCount.Load(), re.requestStates.Len()
+		out.Calls, out.OffTurn = calls.Load(), offTurn.Load()
+		if st := state.Load(); st != nil {
+			st.mu.Lock()
+			out.Completed = st.completed
+			st.mu.Unlock()
+			st.stopTimeoutIfSet()
+		}
+		mu.Lock()
+		out.Handled = append([]int32{}, handled...)
+		mu.Unlock()
+		if !restarted {
+			out.Violations = append(out.Violations, "the actor was not restarted after its Receive panicked")
+		}
+		if state.Load() != nil && !out.Completed {
+			out.Violations = append(out.Violations, "the request in flight when the actor was restarted was never completed")
+		}
+		if out.OffTurn > 0 {
+			out.Violations = append(out.Violations, fmt.Sprintf("the continuation ran %d time(s) off the requester's turn (restart cancels in-flight requests from another goroutine)", out.OffTurn))
+		}
+		if out.Calls > 1 {
+			out.Violations = append(out.Violations, fmt.Sprintf("the continuation ran %d times", out.Calls))
+		}
+		if out.InFlight != 0 || out.Blocking != 0 || out.TableLen != 0 {
+			out.Violations = append(out.Violations, fmt.Sprintf("after the restart inFlightCount=%d blockingCount=%d len(requestStates)=%d", out.InFlight, out.Blocking, out.TableLen))
+		}
+		if restarted && (len(out.Handled) != 2 || out.Handled[0] != 2 || out.Handled[1] != 3) {
+			out.Violations = append(out.Violations, fmt.Sprintf("messages [2 3] sent to the restarted actor were handled as %v", out.Handled))
+		}
+		w.put(out)
+	}
 }
